@@ -22,7 +22,20 @@ VARIANTS = {
     "tsan": (["+nightly", "build", "-Zbuild-std", "--target", "x86_64-unknown-linux-gnu"],
              {"RUSTFLAGS": "-Zsanitizer=thread -Cforce-frame-pointers=yes"},
              "tsan/x86_64-unknown-linux-gnu/debug/vdrive"),
+    # interpreted: `cargo +nightly miri run` in the harness directory (no binary)
+    "miri": (["+nightly", "miri", "setup"], {}, None),
 }
+SANITIZER_ENV = {
+    "asan": {"ASAN_OPTIONS": "detect_leaks=0:abort_on_error=1:halt_on_error=1:symbolize=1:detect_stack_use_after_return=0"},
+    "tsan": {"TSAN_OPTIONS": "halt_on_error=0:second_deadlock_stack=1:report_signal_unsafe=0:exitcode=66"},
+    "miri": {"MIRIFLAGS": "-Zmiri-disable-isolation -Zmiri-permissive-provenance -Zmiri-ignore-leaks"},
+}
+# Set by C16 while it re-runs the workloads of other checks under an instrumented build:
+#   variant: build to use instead of the caller's; max_cases: run at most that many cases of every call (the others are
+#   reported as not_run "sampled out"); observer(cases, results, reports): called after every run_cases call;
+#   wrapper: command prefix (valgrind); env: extra environment
+OVERRIDE = {"variant": None, "max_cases": None, "observer": None, "wrapper": None, "env": None, "salt": "", "wall_s": None}
+REPORT_RE = None
 
 
 class BuildFailed(Exception):
@@ -49,7 +62,7 @@ def build(variant="plain", quiet=True):
         raise BuildFailed(f"cargo {' '.join(args)} failed ({variant}):\n{tail}")
     if not quiet:
         print(f"[build {variant}] ok in {time.time()-t0:.1f}s", flush=True)
-    return os.path.join(TARGET, rel)
+    return os.path.join(TARGET, rel) if rel else None
 
 
 def tmpdir(prefix="run"):
@@ -68,19 +81,38 @@ def _limits(cpu_s, as_bytes):
 
 
 def run_cases(cases, variant="plain", binary=None, cpu_s=None, as_bytes=None,
-              wall_s=600, env=None, stack_mb=None, keep=False, wrapper=None):
+              wall_s=600, env=None, stack_mb=None, keep=False, wrapper=None, _sharded=False):
     """Run cases in one vdrive process, restarting after a death.
 
     Returns (results: dict id -> result, meta) . A case during which the
     process died gets {"died": {...}}; cases not run because of a wall-clock
     watchdog get {"not_run": reason}.
     """
-    if binary is None:
+    ov = OVERRIDE
+    all_cases = cases
+    sampled_out = []
+    if ov["variant"] and binary is None:
+        variant = ov["variant"]
+        if variant != "plain":
+            as_bytes = None          # sanitizer shadow memory / the interpreter need the address space
+            cpu_s = None
+        if ov["wall_s"]:
+            wall_s = ov["wall_s"]
+        if ov["max_cases"] is not None and len(cases) > ov["max_cases"] and not _sharded:
+            key = lambda c: hashlib.md5((ov["salt"] + str(c.get("id"))).encode()).hexdigest()
+            keep = set(id(c) for c in sorted(cases, key=key)[:ov["max_cases"]])
+            sampled_out = [c for c in cases if id(c) not in keep]
+            cases = [c for c in cases if id(c) in keep]
+        wrapper = ov["wrapper"] or wrapper
+        env = dict(env or {})
+        env.update(ov["env"] or {})
+    if binary is None and VARIANTS[variant][2]:
         binary = os.path.join(TARGET, VARIANTS[variant][2])
-    if as_bytes is None and variant == "plain":
+    if as_bytes is None and variant == "plain" and not wrapper:
         as_bytes = 8 << 30   # a runaway allocation must kill the driver, not the machine
     d = tmpdir("vd")
-    results = {}
+    results = {c["id"]: {"id": c["id"], "not_run": "sampled out"} for c in sampled_out}
+    reports = []
     remaining = list(cases)
     restarts = 0
     deadline = time.time() + wall_s
@@ -91,6 +123,7 @@ def run_cases(cases, variant="plain", binary=None, cpu_s=None, as_bytes=None,
     e["RUST_LIB_BACKTRACE"] = "0"
     if stack_mb:
         e["VDRIVE_STACK_MB"] = str(stack_mb)
+    e.update(SANITIZER_ENV.get(variant, {}))
     if env:
         e.update(env)
     rnd = 0
@@ -107,13 +140,20 @@ def run_cases(cases, variant="plain", binary=None, cpu_s=None, as_bytes=None,
                 for c in remaining:
                     results[c["id"]] = {"id": c["id"], "not_run": "wall-clock watchdog"}
                 break
-            cmd = [binary, "run", script, out]
+            cwd = None
+            if variant == "miri":
+                cmd = ["cargo", "+nightly", "miri", "run", "-q", "--", "run", script, out]
+                cwd = HARNESS
+                e["CARGO_TARGET_DIR"] = os.path.join(TARGET, "miri")
+                e["CARGO_NET_OFFLINE"] = "true"
+            else:
+                cmd = [binary, "run", script, out]
             if wrapper:
                 cmd = wrapper + cmd
             errp = os.path.join(d, f"e{rnd}.txt")
             with open(errp, "w") as ef:
                 try:
-                    p = subprocess.run(cmd, stdout=ef, stderr=subprocess.STDOUT, env=e,
+                    p = subprocess.run(cmd, stdout=ef, stderr=subprocess.STDOUT, env=e, cwd=cwd,
                                        timeout=left, preexec_fn=_limits(cpu_s, as_bytes))
                     rc = p.returncode
                     timed_out = False
@@ -147,11 +187,13 @@ def run_cases(cases, variant="plain", binary=None, cpu_s=None, as_bytes=None,
                             done_ids.add(v["id"])
                             if v["id"] == started:
                                 started = None
-            if finished and rc == 0:
-                break
-            # the process died (or was killed by the watchdog) during `started`
             with open(errp, errors="replace") as ef:
                 whole = ef.read()
+            reports += sanitizer_reports(whole, started)
+            if finished and (rc == 0 or started is None):
+                break
+            # the process died (or was killed by the watchdog) during `started`
+            if True:
                 tail = whole[-3000:]
                 head = whole[:600]
                 import re as _re
@@ -161,6 +203,9 @@ def run_cases(cases, variant="plain", binary=None, cpu_s=None, as_bytes=None,
                 break
             if started is not None:
                 died = {"stderr_tail": tail, "stderr_head": head, "first_repo_frame": first_repo_frame}
+                sr = sanitizer_reports(whole, started)
+                if sr:
+                    died["sanitizer"] = sr[-1]
                 if cur_step is not None:
                     died["step"] = cur_step      # cases with "journal_steps": true
                 if timed_out:
@@ -189,21 +234,64 @@ def run_cases(cases, variant="plain", binary=None, cpu_s=None, as_bytes=None,
     finally:
         if not keep:
             shutil.rmtree(d, ignore_errors=True)
-    return results, {"restarts": restarts, "dir": d if keep else None}
+    if ov["observer"]:
+        ov["observer"](all_cases, results, reports, variant)
+    return results, {"restarts": restarts, "dir": d if keep else None, "reports": reports}
+
+
+def sanitizer_reports(text, case_id=None):
+    """Report blocks of ASan / TSan / memcheck / Miri found in a process' stderr -> [{tool, kind, frames, text, case}]"""
+    import re as _re
+    out = []
+    def frames(block):
+        fr = []
+        for m in _re.finditer(r"(?:#\d+ 0x[0-9a-f]+ in |\s+(?:at|by) 0x[0-9A-F]+: )(\S+)(?: .*?/repo/crates/([^\s:)]+))?", block):
+            fn = m.group(1)
+            if m.group(2):
+                fr.append(fn.split("::h")[0] + " @ " + m.group(2))
+        if not fr:
+            for m in _re.finditer(r"--> /repo/crates/([^\s:]+):(\d+)", block):
+                fr.append(m.group(1))
+            for m in _re.finditer(r"inside `([^`]+)` at /repo/crates/([^\s:]+)", block):
+                fr.append(m.group(1) + " @ " + m.group(2))
+        return fr[:6]
+    for m in _re.finditer(r"==\d+==ERROR: AddressSanitizer: (\S+).*?(?:SUMMARY: AddressSanitizer[^\n]*|\Z)", text, _re.S):
+        out.append({"tool": "asan", "kind": m.group(1), "frames": frames(m.group(0)), "text": m.group(0)[:3000], "case": case_id})
+    for m in _re.finditer(r"WARNING: ThreadSanitizer: ([^\n(]+).*?(?:SUMMARY: ThreadSanitizer[^\n]*|\Z)", text, _re.S):
+        out.append({"tool": "tsan", "kind": m.group(1).strip(), "frames": frames(m.group(0)), "text": m.group(0)[:3000], "case": case_id})
+    for m in _re.finditer(r"==\d+== ((?:Invalid (?:read|write|free)|Conditional jump or move depends on uninitialised|Use of uninitialised value|Mismatched free|Source and destination overlap|Syscall param [^\n]*uninitialised)[^\n]*)\n(?:==\d+== [^\n]*\n){0,30}", text):
+        out.append({"tool": "memcheck", "kind": m.group(1).split(" of size")[0], "frames": frames(m.group(0)), "text": m.group(0)[:3000], "case": case_id})
+    for m in _re.finditer(r"error: Undefined Behavior: ([^\n]+).*?(?:note: some details are omitted|\Z)", text, _re.S):
+        out.append({"tool": "miri", "kind": _re.sub(r"0x[0-9a-f]+|alloc\d+|<\d+>|\d+", "N", m.group(1))[:160], "frames": frames(m.group(0)), "text": m.group(0)[:3000], "case": case_id})
+    for m in _re.finditer(r"error: (?:unsupported operation|memory leaked|deadlock|the evaluated program [^\n]*|abnormal termination)[^\n]*", text):
+        out.append({"tool": "miri-other", "kind": m.group(0)[:160], "frames": [], "text": m.group(0)[:500], "case": case_id})
+    return out
 
 
 def run_sharded(cases, shards=16, **kw):
     """Split cases over `shards` parallel vdrive processes."""
     from concurrent.futures import ThreadPoolExecutor
+    results = {}
+    ov = OVERRIDE
+    if ov["variant"] and ov["max_cases"] is not None and len(cases) > ov["max_cases"]:
+        key = lambda c: hashlib.md5((ov["salt"] + str(c.get("id"))).encode()).hexdigest()
+        keep = set(id(c) for c in sorted(cases, key=key)[:ov["max_cases"]])
+        for c in cases:
+            if id(c) not in keep:
+                results[c["id"]] = {"id": c["id"], "not_run": "sampled out"}
+        cases = [c for c in cases if id(c) in keep]
+    if not cases:
+        return results, {"restarts": 0, "reports": []}
     shards = max(1, min(shards, len(cases)))
     parts = [cases[i::shards] for i in range(shards)]
-    results = {}
     restarts = 0
+    reports = []
     with ThreadPoolExecutor(max_workers=shards) as ex:
-        for r, m in ex.map(lambda p: run_cases(p, **kw), parts):
+        for r, m in ex.map(lambda p: run_cases(p, _sharded=True, **kw), parts):
             results.update(r)
             restarts += m["restarts"]
-    return results, {"restarts": restarts}
+            reports += m.get("reports", [])
+    return results, {"restarts": restarts, "reports": reports}
 
 
 def sql_lit(s):
